@@ -5,7 +5,8 @@ import json, os, subprocess, sys, threading, queue, time
 V = "/verif"
 K = int(sys.argv[1])
 only = set(sys.argv[2:])
-res = json.load(open(V + "/seeded/RESULTS.json")) if os.path.exists(V + "/seeded/RESULTS.json") else {}
+RES = os.environ.get("SEEDS_RESULTS", V + "/seeded/RESULTS.json")
+res = json.load(open(RES)) if os.path.exists(RES) else {}
 q = queue.Queue()
 for sid in sorted(os.listdir(V + "/seeded")):
     d = os.path.join(V, "seeded", sid)
@@ -35,11 +36,11 @@ def worker(k):
         with lock:
             res[sid] = r
             print(sid, r.get("detected"), r.get("exit"), flush=True)
-            json.dump(res, open(V + "/seeded/RESULTS.json", "w"), indent=1)
+            json.dump(res, open(RES, "w"), indent=1)
 ts = [threading.Thread(target=worker, args=(k,)) for k in range(K)]
 [t.start() for t in ts]
 [t.join() for t in ts]
-with open(V + "/seeded/RESULTS.md", "w") as f:
+with open((V + "/seeded/RESULTS.md") if RES.startswith(V) else (RES + ".md"), "w") as f:
     f.write("# Seeded changes and the checks that catch them\n\n| seed | property | detected by `./check <property> quick` | first violation reported | what it needs to manifest |\n|---|---|---|---|---|\n")
     for sid, r in sorted(res.items()):
         f.write("| %s | %s | %s | %s | %s |\n" % (sid, r["property"], "yes" if r.get("detected") else ("patch no longer applies" if not r.get("applies") else "NO (exit %s)" % r.get("exit")),
